@@ -170,11 +170,7 @@ def main(
 
     code = 0
     n_errors, n_notes, n_files = util.count_stats(messages)
-    only_notes = n_notes == len(messages)
-    if options.output == "json":
-        # The severity is a field of each JSON line, count_stats() doesn't see it.
-        only_notes = all('"severity": "note"' in message for message in messages)
-    if messages and not only_notes:
+    if messages and not util.only_notes(messages, options.output == "json"):
         code = 2 if blockers else 1
     if options.error_summary:
         if n_errors:
